@@ -1056,7 +1056,10 @@ fn worker(me: usize, spec: &ExecSpec, region: (usize, usize), out: &mut ThreadOu
                     Vm::Mbuff(vm)
                 }
                 Reach::Allowed => {
-                    let mut vm = rbpf::EbpfVmNoData::new(Some(prog))?;
+                    // the memory is registered on a VM that already has its program, or first (the
+                    // program is then loaded afterwards: the registration must still stand)
+                    let register_first = spec.allowed_split % 2 == 1;
+                    let mut vm = rbpf::EbpfVmNoData::new(if register_first { None } else { Some(prog) })?;
                     let a = region.0 as u64;
                     let len = region.1 as u64;
                     let (q, h) = ((len / 4) & !7, (len / 2) & !7);
@@ -1074,6 +1077,9 @@ fn worker(me: usize, spec: &ExecSpec, region: (usize, usize), out: &mut ThreadOu
                     };
                     for r in ranges {
                         vm.register_allowed_memory(r);
+                    }
+                    if register_first {
+                        vm.set_program(prog)?;
                     }
                     vm.register_helper(HELPER_KEY, noop_helper)?;
                     match spec.engine {
